@@ -307,6 +307,33 @@ def construct_cases(tier):
         ('same-shape-different-name', 'struct PE(a: int) struct PF(a: int) fn takee(p: PE)->int{ p::a } let ce = takee(PF(1));', False),
         ('union-vs-struct-same-fields', 'struct PG(a: int) union PH(a: int) fn takeg(p: PG)->int{ p::a } let cg = takeg(PH::a(1));', False),
     ]
+    # self-referential compounds whose self-reference permutes the generic parameters
+    alt = 'struct Alt<A, B>(head: A, rest: Optional<Alt<B, A>>)\nunion Zig<A, B>(stop: A, go: Zig<B, A>)\n'
+    rec = [
+        ('alt-1', 'let l = Alt(1, none());', True), ('alt-2', 'let l = Alt(1, some(Alt("s", none())));', True),
+        ('alt-3', 'let l = Alt(1, some(Alt("s", some(Alt(2, none())))));', True),
+        ('alt-3-wrong-level3', 'let l = Alt(1, some(Alt("s", some(Alt("t", none())))));', False),
+        ('alt-4', 'let l = Alt(1, some(Alt("s", some(Alt(2, some(Alt("u", none())))))));', True),
+        ('alt-4-wrong-level4', 'let l = Alt(1, some(Alt("s", some(Alt(2, some(Alt(3, none())))))));', False),
+        ('alt-declared', 'let l: Alt<int, str> = Alt(1, some(Alt("s", some(Alt(2, none())))));', True),
+        ('alt-declared-swapped', 'let l: Alt<str, int> = Alt(1, some(Alt("s", none())));', False),
+        ('alt-rest-type', 'fn f(l: Alt<int, str>)->Optional<Alt<str, int>>{ l::rest }', True),
+        ('alt-rest-type-wrong', 'fn f(l: Alt<int, str>)->Optional<Alt<int, str>>{ l::rest }', False),
+        ('alt-rest-type-wrong2', 'fn f(l: Alt<int, str>)->Optional<Alt<str, str>>{ l::rest }', False),
+        ('alt-rest-head', 'fn f(l: Alt<int, str>)->str{ l::rest.value()::head }', True),
+        ('alt-rest-head-wrong', 'fn f(l: Alt<int, str>)->int{ l::rest.value()::head }', False),
+        ('alt-rest-rest-head', 'fn f(l: Alt<int, str>)->int{ l::rest.value()::rest.value()::head }', True),
+        ('alt-rest-rest-head-wrong', 'fn f(l: Alt<int, str>)->str{ l::rest.value()::rest.value()::head }', False),
+        ('zig-2', 'let z: Zig<int, str> = Zig::go(Zig::stop("s"));', True),
+        ('zig-2-wrong', 'let z: Zig<int, str> = Zig::go(Zig::stop(1));', False),
+        ('zig-go-type', 'fn f(z: Zig<int, str>)->Optional<Zig<str, int>>{ z?:go }', True),
+        ('zig-go-type-wrong', 'fn f(z: Zig<int, str>)->Optional<Zig<int, str>>{ z?:go }', False),
+        ('zig-go-go-stop', 'fn f(z: Zig<int, str>)->int{ z!:go!:go!:stop }', True),
+        ('zig-go-stop-wrong', 'fn f(z: Zig<int, str>)->int{ z!:go!:stop }', False),
+    ]
+    for i, (label, text, ok) in enumerate(rec):
+        uniq = text.replace('let l', 'let l%d' % i).replace('let z', 'let z%d' % i).replace('fn f(', 'fn frec%d(' % i)
+        out.append(('construct|recursive|%s' % label, uniq, ok, []))
     for label, text, ok in same:
         if ok is None:
             continue
@@ -456,7 +483,7 @@ def run(tier):
             rep.fail(Failure(PROP, sig + ('|rejected-assignable' if exp else '|accepted-not-assignable'), {'text': text}, 'accepted' if exp else 'a compilation error',
                              'accepted' if kind == 'ok' else 'rejected: ' + info, job_for(text)))
     # B / C
-    extra = [GD for GD in (''.join(gsig_decl(*g) for g in GSIGS) + 'struct DD<T>(a: T, b: T)\nunion UU<T>(l: T, r: T)\n',)]
+    extra = [GD for GD in (''.join(gsig_decl(*g) for g in GSIGS) + 'struct DD<T>(a: T, b: T)\nunion UU<T>(l: T, r: T)\nstruct Alt<A, B>(head: A, rest: Optional<Alt<B, A>>)\nunion Zig<A, B>(stop: A, go: Zig<B, A>)\n',)]
     hdecls, hcases = host_cases(tier)
     extra[0] += hdecls
     for fam, cs in (('generic', generic_cases(tier)), ('inferred', inferred_cases(tier)), ('call', call_cases(tier)), ('construct', construct_cases(tier)), ('generic-host', hcases)):
